@@ -70,6 +70,19 @@ def dictGet? : Dict → String → Option Nat
   | [], _ => none
   | (k', l') :: rest, k => if k' = k then some l' else dictGet? rest k
 
+/-- the same dictionary with its entries in the order `names` (names that are absent are skipped):
+    what a SimulationResults object looks like when its results were added in another order.  The
+    insertion order is not part of the logical value of a result set. -/
+def reorderDict (d : Dict) : List String → Dict
+  | [] => []
+  | nm :: rest => match dictGet? d nm with
+    | some l => (nm, l) :: reorderDict d rest
+    | none => reorderDict d rest
+
+/-- script op `ro`: re-create the `_results` dictionary of `s` in another key order -/
+def reorderSim (m : Mach) (s : Nat) (names : List String) : Mach :=
+  setDict m s (reorderDict (dictOf m s) names)
+
 /-! ### Result methods on the heap -/
 
 def updR (m : Mach) (a : Nat) (o : Obs) : Mach × Option PyErr :=
